@@ -300,7 +300,7 @@ fn post_checks(s: &mut Sim, _plan: &Plan) {
         _ => None,
     }).collect();
     for (i, h) in esc {
-        let kind = if h.contains("panicked") { "panic" } else { "return" };
+        let kind = if h.contains("panicked") { "panic" } else if h.contains("runaway") { "runaway" } else { "return" };
         s.violate("child_escaped", format!("child_escaped/how={}", kind), format!("spawn #{}: {}", i, h));
     }
 }
